@@ -76,6 +76,17 @@ func (r *receipt[O, X]) Blocks() iter.Seq2[block.Block, error] {
 		}
 	}
 
+	// invocations embedded as effects travel with the receipt too
+	effects := r.Fx()
+	for _, effect := range effects.Fork() {
+		if inv, ok := effect.Invocation(); ok {
+			iterators = append(iterators, inv.Blocks())
+		}
+	}
+	if inv, ok := effects.Join().Invocation(); ok {
+		iterators = append(iterators, inv.Blocks())
+	}
+
 	iterators = append(iterators, func(yield func(block.Block, error) bool) { yield(r.Root(), nil) })
 
 	return iterable.Concat2(iterators...)
